@@ -10,8 +10,8 @@ PROPERTY = 'C01'
 BOUNDS = ("Container.transfer / Plate.transfer from arbitrary valid pre-states: every amount in every well symbolic "
           "(wells hold water+NaCl+lipase on the source side, water on the destination side), quantity symbolic in "
           "[0, 1e6] of its unit; units uL/mg (quick) + umol/U/mL/g/kU/mmol (thorough); plates 2x3 (and 1x1 sources); "
-          "17 geometries: row->row, col->col, rect->rect, stepped, lists, 1->all, all->1, whole Plate on either side, "
-          "container->plate/list, plate/slice->container, same plate disjoint (3) and overlapping (3), container into "
+          "20 geometries: row->row, col->col, rect->rect, stepped, lists, 1->all, all->1, whole Plate on either side, "
+          "container->plate/list, plate/slice->container, slices of slices (3), same plate disjoint (3) and overlapping (3), container into "
           "itself; 'tight' cells assume 0 <= q < held in every addressed source well (one path per geometry), 'free' "
           "cells (2 wells) assume nothing about q so refusals and exact-depletion paths are explored too. Lite "
           "rounding model.")
@@ -45,6 +45,9 @@ GEOMS = {
     'overlap/row->same-row': ((1, S(None)), [(0, 0), (0, 1), (0, 2)], (1, S(None)), [(0, 0), (0, 1), (0, 2)], True),
     'overlap/shifted': ((1, S(1, 2)), [(0, 0), (0, 1)], (1, S(2, 3)), [(0, 1), (0, 2)], True),
     'overlap/well->row': ('A:1', [(0, 0)], (1, S(None)), [(0, 0), (0, 1), (0, 2)], True),
+    'sub->c': (('SUB', (S(1, 2), S(2, 3)), (S(0, 1), S(1, 2))), [(0, 2)], 'C', None, False),
+    'c->sub': ('C', None, ('SUB', (S(None), S(None)), (S(1, 2), S(0, 1))), [(1, 0)], False),
+    'sub->sub': (('SUB', (1, S(None)), (S(0, 1), S(1, 3))), [(0, 1), (0, 2)], ('SUB', (S(None), S(None)), (S(1, 2), S(0, 2))), [(1, 0), (1, 1)], False),
     'self/c->c': ('C', None, 'SELF', None, True),
     'c->c': ('C', None, 'C', None, False),
 }
@@ -68,6 +71,15 @@ def cells(tier, seed):
             out.append({'id': f"{g}/{unit}", 'fn': 'h_conserve', 'round': 'lite', 'max_paths': 400, 'cost': 6,
                         'params': {'geom': g, 'unit': unit, 'tight': False, 'shape': (1, 2)}})
     return out
+
+
+def select(plate, sel):
+    """plate[sel], a slice of a slice for ('SUB', outer, inner), or the plate itself for 'PLATE'"""
+    if isinstance(sel, str) and sel == 'PLATE':
+        return plate
+    if isinstance(sel, tuple) and len(sel) == 3 and sel[0] == 'SUB':
+        return plate[sel[1]][sel[2]]
+    return plate[sel]
 
 
 def _mk_plate(h, lib, name, shape, subs, lo, hi):
@@ -121,7 +133,7 @@ def h_conserve(h):
         src_wells = [objs['src']]
     else:
         objs['P'] = _mk_plate(h, lib, 'P', shape, SRC_MIX, lo, hi)
-        src_arg = objs['P'] if src_sel == 'PLATE' else objs['P'][src_sel]
+        src_arg = select(objs['P'], src_sel)
         src_wells = [objs['P'].wells[rc] for rc in src_cells]
     if dst_sel == 'SELF':
         dst_arg = objs['src']
@@ -129,10 +141,10 @@ def h_conserve(h):
         objs['dst'] = mk_container(h, lib, 'dst', ['water'], lo=lo, hi=hi)
         dst_arg = objs['dst']
     elif same:
-        dst_arg = objs['P'] if dst_sel == 'PLATE' else objs['P'][dst_sel]
+        dst_arg = select(objs['P'], dst_sel)
     else:
         objs['Q'] = _mk_plate(h, lib, 'Q', shape, ['water'], lo, hi)
-        dst_arg = objs['Q'] if dst_sel == 'PLATE' else objs['Q'][dst_sel]
+        dst_arg = select(objs['Q'], dst_sel)
 
     n_dst = len(dst_cells) if dst_cells else 1
     if p['tight']:
